@@ -326,17 +326,43 @@ def cache_snapshot():
 SHARED = {"on": False}      # does the current history reuse its options objects?  (fixed per history, also while shrinking)
 
 
+class ImportFailpoint:
+    """meta-path finder that fails the import of user-data parser packages with EMFILE while it is installed"""
+    def __init__(self):
+        self.fired = 0
+
+    def find_spec(self, fullname, path=None, target=None):
+        if fullname.startswith("udparsers."):
+            self.fired += 1
+            raise OSError(24, "Too many open files (injected at the import of %s)" % fullname)
+        return None
+
+
 def run_history(pool, ops, refs, alltokens, fresh_import):
     """executes in a forked child; returns dict with violations and stats"""
     viol, stats = [], {"ops": 0, "cache_checks": 0, "scanned": 0, "cache_states": [], "trans": []}
     prev = None
     cfgs = {} if SHARED["on"] else None      # every second history reuses its options objects across operations
     for k, op in enumerate(ops):
-        res = do_op(pool, op, cfgs)
-        stats["ops"] += 1
-        key = "%d/%d/%s" % (op[0], op[1], op[2])
-        ref = refs[key]
-        it = pool[op[0]]
+        if op[2] == "faulty":
+            # a decode during which the FIRST import of a user-data parser module fails for a reason that has nothing to do
+            # with the module (too many open files): a source-free failpoint on sys.meta_path, plug-in packages only.  What
+            # this decode shows is not judged; that it leaves nothing behind is (the operations after it, the cache check).
+            fp = ImportFailpoint()
+            sys.meta_path.insert(0, fp)
+            try:
+                do_op(pool, (op[0], op[1], "decode"), cfgs)
+            finally:
+                sys.meta_path.remove(fp)
+            stats["ops"] += 1
+            stats["import_faults"] = stats.get("import_faults", 0) + fp.fired
+            res, ref, it = None, None, pool[op[0]]
+        else:
+            res = do_op(pool, op, cfgs)
+            stats["ops"] += 1
+            key = "%d/%d/%s" % (op[0], op[1], op[2])
+            ref = refs[key]
+            it = pool[op[0]]
         stats["trans"].append("%s>%s" % (prev, it.label))
         prev = it.label
         if res != ref:
@@ -344,7 +370,7 @@ def run_history(pool, ops, refs, alltokens, fresh_import):
             viol.append({"key": "C19/history-dependent-result/" + it.label.split(":")[0], "at": k,
                          "msg": "operation %d (%s of pool[%d] '%s', plugins=%d) gave %s, decoded first in a fresh process it gives %s: %s" %
                                 (k, op[2], op[0], it.label, op[1], res[0], ref[0], diffline(ref[2], res[2]) if what == "content" else (res[1:], ref[1:]))})
-        if res[0] in ("doc", "summary") and isinstance(res[2], str):
+        if res is not None and res[0] in ("doc", "summary") and isinstance(res[2], str):
             stats["scanned"] += 1
             for m in TOKEN_RE.finditer(res[2]):
                 s = m.group(0)
@@ -399,6 +425,14 @@ def gen_history(rng, pool):
         for _ in range(rng.randrange(1, 4)):
             if victims:
                 ops.append((rng.choice(victims), 1, rng.choice(["decode", "decode", "summary"])))
+        poisoned = True
+    okud = [i for i, it in enumerate(pool) if it.label in ("ud:fx_ok", "ud:fx_list")]
+    if not poisoned and okud and rng.random() < 0.3:
+        # a transient import fault while a working parser module is loaded for the first time, then the same log and its
+        # neighbours again
+        v = rng.choice(okud)
+        mates = [i for i, it in enumerate(pool) if it.group == pool[v].group]
+        ops = [(v, 1, "faulty"), (v, 1, "decode")] + [(rng.choice(mates), 1, "decode") for _ in range(2)]
         poisoned = True
     groups = sorted({it.group for it in pool if it.group})
     if groups and rng.random() < 0.5:
@@ -531,6 +565,7 @@ def run(spec, ctx):
             continue
         st = res["stats"]
         ctx.counters["ops.compared"] += st["ops"]
+        ctx.counters["ops.import_failpoint_fired"] += st.get("import_faults", 0)
         ctx.counters["cache.invariant_checks"] += st["cache_checks"]
         ctx.counters["tokens.scanned_outputs"] += st["scanned"]
         for s in st["cache_states"]:
